@@ -201,7 +201,7 @@ def build(run):
         out += [("contra", "identity", "cov"), ("identity", "identity", "identity"), ("dcov", "contra", "l2")]
         if thorough:
             out += [c for c in itertools.product(["identity", "contra", "cov"], repeat=3)]
-        return out
+        return list(dict.fromkeys(out))
 
     def mixed_spec(kinds, rshapes, g, t, fcount, nested=None):
         """returns (total physical size, spec(w, flat physical component))"""
